@@ -102,7 +102,7 @@ class Visitor(_BaseVisitor[T], abc.ABC):
     children and siblings are not affected.
     """
   
-  def walk(self, ob: T) -> None:
+  def walk(self, ob: T, _root: bool = True) -> None:
     """
     Traverse a tree of objects, calling the
     `visit()` method of `visitor` when entering each
@@ -117,17 +117,23 @@ class Visitor(_BaseVisitor[T], abc.ABC):
 
     :param ob: An object to walk.
     """
+    skip_siblings = False
     try:
       self.visit(ob)
     except (self.SkipChildren, self.SkipNode):
       return
     except self.SkipDeparture:           
       pass # not applicable; ignore
+    except self.SkipSiblings:
+      # The current node's children are not affected, only its siblings.
+      skip_siblings = True
     try:
       for child in self.get_children(ob):
-          self.walk(child)
+          self.walk(child, False)
     except self.SkipSiblings:
       pass
+    if skip_siblings and not _root:
+      raise self.SkipSiblings()
     
   def visit(self, ob: T) -> None:
     """Extend the base visit with extensions.
@@ -162,7 +168,7 @@ class Visitor(_BaseVisitor[T], abc.ABC):
     for v in self.extensions.after_visit + self.extensions.outter_visit:
       v.depart(ob)
 
-  def walkabout(self, ob: T) -> None:
+  def walkabout(self, ob: T, _root: bool = True) -> None:
     """
     Perform a tree traversal similarly to `walk()` (which
     see), except also call the `depart()` method before exiting each node.
@@ -176,6 +182,7 @@ class Visitor(_BaseVisitor[T], abc.ABC):
     """
     call_depart = True
     skip_node = False
+    skip_siblings = False
     try:
       try:
         self.visit(ob)
@@ -184,15 +191,20 @@ class Visitor(_BaseVisitor[T], abc.ABC):
         call_depart = False
       except self.SkipDeparture:           
         call_depart = False
+      except self.SkipSiblings:
+        # The current node's children and its departure are not affected, only its siblings.
+        skip_siblings = True
       if not skip_node:
         try:
           for child in self.get_children(ob):
-              self.walkabout(child)
+              self.walkabout(child, False)
         except self.SkipSiblings:
           pass
     except self.SkipChildren:
       pass
     self.depart(ob, extensions_only=not call_depart)
+    if skip_siblings and not _root:
+      raise self.SkipSiblings()
 
 # Adapted from https://github.com/pawamoy/griffe
 # Copyright (c) 2021, Timothée Mazzucotelli
